@@ -7,6 +7,11 @@
 (*  Mode = "free":   every token sequence of <= MaxLen tokens over the full alphabet, well     *)
 (*                   formed or not (several heads, no head, meta before head, end tags without *)
 (*                   start tags, upper-case names, namespaced attributes).                     *)
+(*  Mode = "content": <html><head> M </head>.. where M is a meta whose content VALUE is built     *)
+(*                   fragment by fragment (every prefix a state) from the pieces of a Content-  *)
+(*                   Type value: media type, separators, the parameter name charset in several  *)
+(*                   letter cases and with U+017F, '=', blank, both quotes, labels; M is a       *)
+(*                   pragma (http-equiv first / content first) or a non-carrier (name=).         *)
 (* Theorems: the machine refines the whole-stream transformation Exp and satisfies the         *)
 (* property clauses on Dom; queue invariant; nothing is lost on balanced streams; idempotence. *)
 (* Every state is exported (inp, enc, out) for replay into the real filter.                    *)
@@ -77,18 +82,28 @@ Check(stream) ==
         lost     |-> (d => fin.pending = <<>> /\ fin.found),
         idem     |-> (d => ImFilter(out, Enc) = out)]
 
+\* ---- content mode: pieces of a Content-Type value
+Frags == { <<116,101,120,116,47,104,116,109,108>>, <<59,32>>, N_charset, S_CHARSET, <<67,104,65,114,83,101,116>>,
+           <<99,104,97,114,383,101,116>>, <<61>>, <<32>>, <<34>>, <<39>>, Foo, <<120>> }
+CMeta(shape, v) ==
+    IF shape = 1 THEN T("EmptyTag", N_meta, NS_html, <<A(N_http_equiv, S_ct), A(N_content, v)>>, <<>>)
+    ELSE IF shape = 2 THEN T("EmptyTag", N_meta, NS_html, <<A(N_content, v), A(N_http_equiv, N_content_type)>>, <<>>)
+    ELSE T("EmptyTag", N_meta, NS_html, <<A(N_name, <<120>>), A(N_content, v)>>, <<>>)
+CStream(h, shape) == <<HtmlS, HeadS>> \o (IF shape = 2 THEN <<TitleS, Txt, TitleE>> ELSE <<>>) \o <<CMeta(shape, Flatten(h))>>
+                     \o <<HeadE, BodyS, BodyE, HtmlE>>
+
 VARIABLES hc, w, chk
 vars == <<hc, w, chk>>
-StreamOf(h, ww) == IF Mode = "layout" THEN ww[1] \o ww[2] \o (IF ww[2] = <<>> THEN <<>> ELSE h) \o ww[3] \o ww[4] ELSE h
+StreamOf(h, ww) == IF Mode = "content" THEN CStream(h, ww) ELSE IF Mode = "layout" THEN ww[1] \o ww[2] \o (IF ww[2] = <<>> THEN <<>> ELSE h) \o ww[3] \o ww[4] ELSE h
 Stream == StreamOf(hc, w)
-Init == /\ hc = <<>> /\ w \in (IF Mode = "layout" THEN Wraps ELSE {<<>>})
+Init == /\ hc = <<>> /\ w \in (IF Mode = "layout" THEN Wraps ELSE IF Mode = "content" THEN (IF Alpha = "core" THEN {1} ELSE {1, 2, 3}) ELSE {<<>>})
         /\ chk = Check(StreamOf(hc, w))
 Next == /\ Len(hc) < MaxLen /\ UNCHANGED w
         /\ (Mode = "layout" => w[2] # <<>>)
-        /\ \E tok \in (IF Mode = "layout" THEN InHead ELSE Free) : hc' = Append(hc, tok)
+        /\ \E tok \in (IF Mode = "layout" THEN InHead ELSE IF Mode = "content" THEN Frags ELSE Free) : hc' = Append(hc, tok)
         /\ chk' = Check(StreamOf(hc', w))
 
-ThmInDomain    == Mode = "layout" => chk.dom
+ThmInDomain    == Mode \in {"layout", "content"} => chk.dom
 ThmRefines     == chk.refines            \* Dom(Stream) => ImFilter(Stream) = Exp(Stream)
 ThmProperty    == chk.property           \* Dom(Stream) => Declares /\ NoConflict /\ OthersUnchanged /\ MetasAligned
 ThmQueue       == chk.queue              \* in_head  <=>  pending queue non-empty
